@@ -57,8 +57,10 @@ func (c17) Gen(r *rand.Rand, tier string, run int) *core.Case {
 				// an unbuffered queue whose reader takes nothing before the close callback ran, 6 keep, registered
 				// with AddHandler (a consumer function), 7 keep, whose close callback - once the
 				// connection is shutting down - waits until the handler registered right after it
-				// has been closed (an application that collects its notifications in an order of its own)
-				op = core.Op{Kind: "make", X: int64(r.IntN(8)), Y: int64(r.IntN(6))}
+				// has been closed (an application that collects its notifications in an order of its own),
+				// 8 a handler that gives itself up on a message it does not take (its filter answers
+				// "not for me, and forget me")
+				op = core.Op{Kind: "make", X: int64(r.IntN(9)), Y: int64(r.IntN(6))}
 			case k < 6:
 				op = core.Op{Kind: "remove", X: int64(r.IntN(4)), Y: int64(r.IntN(14))} // X: 0,1 own live; 2 stale/any known; 3 random id Y
 			default:
@@ -315,6 +317,17 @@ func c17make2(env *core.Env, st *c17state, a, kind, lazy int, onClosed, waitFor 
 		switch kind {
 		case 0, 4, 5, 6, 7:
 			return hdr.Action%2 == 0, true
+		case 8:
+			if hdr.Action%5 == 0 {
+				seq := zzsim.Seq()
+				st.mu.Lock()
+				if _, ok := st.oneShotSeq[rec.idx]; !ok {
+					st.oneShotSeq[rec.idx] = seq
+				}
+				st.mu.Unlock()
+				return false, false
+			}
+			return hdr.Action%2 == 0, true
 		case 1, 3:
 			if hdr.Action%3 == 0 {
 				// self-removal: from now on the handler is on its way out
@@ -452,7 +465,7 @@ func (c17) Check(c *core.Case, env *core.Env, res zzsim.Result, v *core.Verdict)
 				e = s
 			}
 		}
-		if r.kind == 1 || r.kind == 3 {
+		if r.kind == 1 || r.kind == 3 || r.kind == 8 {
 			// a one-shot handler may leave as soon as a matching frame was written
 			for _, fs := range st.frameSeqs {
 				if fs > r.makeCall && fs < e {
@@ -552,7 +565,7 @@ func (c17) Check(c *core.Case, env *core.Env, res zzsim.Result, v *core.Verdict)
 					e = s
 				}
 			}
-			if r.kind == 1 || r.kind == 3 {
+			if r.kind == 1 || r.kind == 3 || r.kind == 8 {
 				for _, fs := range st.frameSeqs {
 					if fs > r.makeCall && fs < e {
 						e = fs
